@@ -354,6 +354,17 @@ impl<'r> B<'r> {
                 }
                 _ => {}
             }
+            // binary operators: prefer two different streams (a self-zip never has excess, a
+            // self-difference is always empty)
+            if k == 1 && e == ins[0] && !matches!(op, Op::RefSingleton(_)) {
+                for _ in 0..4 {
+                    let e2 = if attempt > 0 { self.pick_small() } else { self.pick(false) };
+                    if e2 != ins[0] {
+                        e = e2;
+                        break;
+                    }
+                }
+            }
             if op.needs_ordered(k) {
                 e = self.ensure_ordered(e);
             }
